@@ -570,3 +570,71 @@ pub(crate) fn relation(q: &str, p: &str) -> &'static str {
 pub(crate) fn iface_name_of<I: Interface>() -> String {
     I::name().to_string()
 }
+
+// ---------------------------------------------------------------------------------------------
+// Parallel driver with per-chunk accumulation (one lock round per chunk instead of per history)
+// ---------------------------------------------------------------------------------------------
+
+#[derive(Default)]
+pub(crate) struct Acc {
+    pub outcomes: BTreeMap<String, u64>,
+    pub nontrivial: Vec<u64>,
+    pub states: Vec<u64>,
+    pub evals: u64,
+}
+
+impl Acc {
+    pub fn outcome(&mut self, class: &str) {
+        match self.outcomes.get_mut(class) {
+            Some(n) => *n += 1,
+            None => {
+                self.outcomes.insert(class.to_string(), 1);
+            }
+        }
+    }
+}
+
+/// Run `f(i, acc)` for every `i in 0..total` on all cores; the accumulators are folded into the
+/// report (and `states`) once per chunk.
+pub(crate) fn par_items(
+    total: usize,
+    chunk: usize,
+    report: &vcommon::Report,
+    states: &std::sync::Mutex<std::collections::HashSet<u64>>,
+    f: impl Fn(usize, &mut Acc) + Sync,
+) {
+    let n_chunks = total.div_ceil(chunk);
+    vcommon::par_for(n_chunks, 1, |c| {
+        let mut acc = Acc::default();
+        for i in c * chunk..((c + 1) * chunk).min(total) {
+            f(i, &mut acc);
+        }
+        report.eval(acc.evals);
+        for (k, n) in &acc.outcomes {
+            report.outcome_n(k, *n);
+        }
+        report.nontrivial_many(acc.nontrivial.iter().cloned());
+        states.lock().unwrap().extend(acc.states.iter().cloned());
+    });
+}
+
+/// The cheap part of `probe`: only the server-side lookups.
+pub(crate) async fn probe_lookup(server: Connection) -> Obs {
+    let mut o = Obs::default();
+    let os = server.object_server();
+    for p in 0..PATHS.len() {
+        let v = match os.interface::<_, I1>(PATHS[p]).await {
+            Ok(r) => View::Val(r.get().await.val),
+            Err(zbus::Error::InterfaceNotFound) => View::Absent("InterfaceNotFound".into()),
+            Err(e) => View::Odd(format!("{e:?}")),
+        };
+        o.lookup.insert((p, 0), v);
+        let v = match os.interface::<_, I2>(PATHS[p]).await {
+            Ok(r) => View::Val(r.get().await.val),
+            Err(zbus::Error::InterfaceNotFound) => View::Absent("InterfaceNotFound".into()),
+            Err(e) => View::Odd(format!("{e:?}")),
+        };
+        o.lookup.insert((p, 1), v);
+    }
+    o
+}
